@@ -7,9 +7,12 @@ BASE = "cd /repo && /venv/bin/python -m pytest -ra -q -p no:cacheprovider --time
 def load():
     d = os.path.join(VERIF, "harness", "manifest")
     claimed, notyet = {}, {}
+    ready = set(open(os.path.join(d, "READY")).read().split())
     for fn in sorted(os.listdir(d)):
         if fn.endswith(".json"):
             j = json.load(open(os.path.join(d, fn)))
+            if fn[:-5] not in ready:
+                continue
             if j.get("not_applicable"):
                 notyet[fn[:-5]] = j["not_applicable"]
             else:
